@@ -84,6 +84,10 @@ structure EntryOp where
   /-- `api.WithResourceType`: carried by the op, looked at by nobody — `GetOrCreateResourceNode` finds the node by the
       resource NAME and only a newly created node takes the type; every account is per name -/
   rtype : String := "common"
+  /-- `api.WithFlag` → `ctx.Input.Flag`; carried, looked at by nobody -/
+  flag : Int := 0
+  /-- the attachments in force at Entry time (`WithAttachments(map)` then `WithAttachment(k, v)`), sorted by key -/
+  atts : List (String × String) := []
 deriving DecidableEq, Repr
 
 inductive Op
@@ -279,10 +283,11 @@ def nodeOf (s : St) : Key → Option Node
 def obsWindow (s : St) (k : Key) (Iv now : Nat) : Option Bucket := (nodeOf s k).map fun n => viewSum n.arr Iv now
 /-- `CurrentConcurrency()` -/
 def obsConc (s : St) (k : Key) : Option Int := (nodeOf s k).map (·.conc)
-/-- `entry.Context().Err()` / `.Input.Args` of a live entry (`none`: no such entry, or exited) -/
-def obsCtx (s : St) (id : Nat) : Option (Option String × List String) :=
+/-- `entry.Context().Err()` and `.Input` (batch, flag, args, attachments) / `.Resource` of a live entry
+    (`none`: no such entry, or exited) -/
+def obsCtx (s : St) (id : Nat) : Option (Option String × EntryOp) :=
   match findE s.ents id with
-  | some c => if c.exited then none else some (c.err, c.e.args)
+  | some c => if c.exited then none else some (c.err, c.e)
   | none => none
 /-- what `api.Entry` returned: `some true` = an entry, `some false` = a block error -/
 def obsEntered (s : St) (id : Nat) : Option Bool :=
@@ -418,9 +423,9 @@ def ledConc (fix : Bool) (h : List TOp) (k : Key) : Option Int :=
   let present := match k with | none => true | some r => nodeExists h r
   if present then some (gauge fix h k) else none
 
-def ledCtx (h : List TOp) (id : Nat) : Option (Option String × List String) :=
+def ledCtx (h : List TOp) (id : Nat) : Option (Option String × EntryOp) :=
   match info h id with
-  | some i => if i.done then none else some (i.err, i.e.args)
+  | some i => if i.done then none else some (i.err, i.e)
   | none => none
 
 def ledEntered (h : List TOp) (id : Nat) : Option Bool :=
